@@ -61,19 +61,21 @@ func vkSpaces(thorough, dnssec bool) []vkSpace {
 	q := func(i int, cd bool) vkEv { e := vkAlphabetQs[i]; e.CD = cd; return e }
 	adv := func(d int) vkEv { return vkEv{K: "adv", D: d} }
 	wd, rp := vkEv{K: "withdraw"}, vkEv{K: "repoint"}
-	full, deep := 5, 9
-	if dnssec {
-		full, deep = 4, 6 // a validating resolution costs three times as much (DNSKEY exchanges, signature checks)
-	}
-	if thorough {
-		full, deep = 8, 14 // time-capped
+	// depth bounds {hot, deeper, apex, cd, full}, sized from measured rates (validation costs three times as much per
+	// history: DNSKEY exchanges, signature checks); the thorough bounds are cut by the time budget, fairly by cost
+	d := [5]int{9, 7, 7, 7, 4}
+	switch {
+	case thorough:
+		d = [5]int{16, 14, 12, 12, 8}
+	case dnssec:
+		d = [5]int{7, 5, 5, 5, 3}
 	}
 	return []vkSpace{
-		{"hot", []vkEv{q(0, false), adv(1), adv(3), adv(5), wd, rp}, deep},                  // one name kept hot
-		{"deeper", []vkEv{q(1, false), q(0, false), adv(3), adv(5), adv(10), wd, rp}, deep}, // grandchild delegation under the child's lease
-		{"apex", []vkEv{q(2, false), q(4, false), q(3, false), adv(3), adv(10), wd, rp}, deep - 1},
-		{"cd", []vkEv{q(0, false), q(0, true), q(4, true), adv(3), adv(5), adv(50), wd}, deep - 1},
-		{"full", vkEvents(thorough, dnssec), full},
+		{"hot", []vkEv{q(0, false), adv(1), adv(3), adv(5), wd, rp}, d[0]},                  // one name kept hot
+		{"deeper", []vkEv{q(1, false), q(0, false), adv(3), adv(5), adv(10), wd, rp}, d[1]}, // grandchild delegation under the child's lease
+		{"apex", []vkEv{q(2, false), q(4, false), q(3, false), adv(3), adv(10), wd, rp}, d[2]},
+		{"cd", []vkEv{q(0, false), q(0, true), q(4, true), adv(3), adv(5), adv(50), wd}, d[3]},
+		{"full", vkEvents(thorough, dnssec), d[4]},
 	}
 }
 
@@ -116,7 +118,7 @@ func (w *vkWorld) runOnce(sc vkScenario) vkResult {
 func (w *vkWorld) run(c *vkit.Ctx, sc vkScenario) vkResult {
 	for try := 0; ; try++ {
 		r := w.runOnce(sc)
-		if !r.disturbed && r.step.Class != "harness-desync" {
+		if !r.disturbed && r.step.Class != "harness-desync" && r.step.Class != "harness-wait" {
 			return r
 		}
 		if try == 3 {
@@ -282,12 +284,17 @@ func vkExplore(t *testing.T, unit string, dnssec bool) {
 		frontier [][]vkEv
 		dead     bool
 		done     bool
+		depth    int
+		cost     time.Duration
 	}
 	var runs []*bfs
 	n := 0
 	for _, sp := range spaces {
 		for _, cfg := range cfgs {
 			if c.Mine(n) {
+				if sp.Name == "full" && c.Quick() && !dnssec && !cfg.Prefetch {
+					sp.Depth++ // without the refresh machinery a history costs a third: one level more fits
+				}
 				runs = append(runs, &bfs{cfg: cfg, sp: sp, seen: map[string]bool{}, frontier: [][]vkEv{nil}})
 			}
 			n++
@@ -295,8 +302,6 @@ func vkExplore(t *testing.T, unit string, dnssec bool) {
 	}
 	capped := false
 	startAll := time.Now()
-	// the narrow spaces run to their bound one after the other; the searches of the full alphabet then advance depth by
-	// depth together, so that a time cap cuts every configuration at the same depth
 	step := func(b *bfs, depth int) {
 		w, err := vkGetWorld(vkWorldKey{dnssec: b.cfg.DNSSEC, prefetch: b.cfg.Prefetch})
 		if err != nil {
@@ -331,6 +336,13 @@ func vkExplore(t *testing.T, unit string, dnssec bool) {
 					continue
 				}
 				c.Outcome(ev.K + "->" + r.outcomes[len(r.outcomes)-1])
+				if f := os.Getenv("VERIF_C08_FIND"); f != "" && r.outcomes[len(r.outcomes)-1] == f { // manual aid
+					fmt.Printf("FOUND %s: %s\n", f, sc)
+					js, _ := json.Marshal(sc)
+					fmt.Println(string(js))
+					capped = true
+					return
+				}
 				if b.seen[r.digest] {
 					continue
 				}
@@ -355,49 +367,40 @@ func vkExplore(t *testing.T, unit string, dnssec bool) {
 			}
 		}
 	}
-	for _, b := range runs {
-		if b.sp.Name == "full" {
-			continue
-		}
-		for depth := 1; depth <= b.sp.Depth && !b.done && !capped; depth++ {
-			step(b, depth)
-			if c.NumViolations() > 6 {
-				return
-			}
-		}
-		if os.Getenv("VERIF_C08_TRACE") != "" {
-			fmt.Printf("space %s {%s}: %d states, done=%v, elapsed %s\n", b.sp.Name, b.cfg, len(b.seen), b.done, time.Since(startAll).Round(time.Millisecond))
-		}
-	}
-	for depth := 1; !capped; depth++ {
-		live := 0
+	// Every search advances one BFS level at a time; the one that has cost the least so far goes next, so that a
+	// time cap cuts all searches of a shard at about the same cost (the narrow spaces therefore get deeper).
+	for !capped {
+		var pick *bfs
 		for _, b := range runs {
-			if b.sp.Name != "full" || b.done || depth > b.sp.Depth || capped {
+			if b.done || b.depth >= b.sp.Depth {
 				continue
 			}
-			step(b, depth)
-			if c.NumViolations() > 6 {
-				return
+			if pick == nil || b.cost < pick.cost {
+				pick = b
 			}
-			if !b.done {
-				live++
-			}
+		}
+		if pick == nil {
+			break
+		}
+		before := time.Now()
+		pick.depth++
+		step(pick, pick.depth)
+		pick.cost += time.Since(before)
+		if c.NumViolations() > 6 {
+			return
 		}
 		if os.Getenv("VERIF_C08_TRACE") != "" {
-			nf := 0
-			for _, b := range runs {
-				if b.sp.Name == "full" {
-					nf += len(b.frontier)
-				}
-			}
-			fmt.Printf("full depth %d: frontier %d, elapsed %s\n", depth, nf, time.Since(startAll).Round(time.Millisecond))
+			fmt.Printf("space %-6s {%s}: depth %d, %d states, frontier %d, done=%v, cost %s, elapsed %s\n", pick.sp.Name, pick.cfg, pick.depth, len(pick.seen), len(pick.frontier), pick.done,
+				pick.cost.Round(time.Millisecond), time.Since(startAll).Round(time.Millisecond))
 		}
-		if live == 0 {
-			break
+	}
+	for _, b := range runs {
+		if !b.done && !b.dead && b.depth >= b.sp.Depth {
+			c.Add("depth_bounds_reached", 1)
 		}
 	}
 	for _, w := range vkWorlds {
-		w.waitIdle()
+		w.waitIdle(nil)
 	}
 }
 
